@@ -1492,8 +1492,14 @@ func (fc *FuncCtx) safety(st *State, kind string, goal *Term, pos token.Pos, not
 		return
 	}
 	fc.safeCount[kind]++
-	v.addObligation(&Obligation{Name: fmt.Sprintf("%s#safe.%s%d", fc.short, kind, fc.safeCount[kind]), Kind: "safe", Func: fc.key,
-		Pos: v.fset.Position(pos).String(), Assume: st.pc, Goal: goal, Expect: "unsat", Note: note})
+	name := fmt.Sprintf("%s#safe.%s%d", fc.short, kind, fc.safeCount[kind])
+	var wenv *Env
+	if _, isKnown := v.known[name]; isKnown && fc.entry != nil {
+		// the witness of a known finding on a safety obligation sees the caller's variables at the point of the check
+		wenv = fc.env(st.clone(), fc.entry)
+	}
+	v.addObligation(&Obligation{Name: name, Kind: "safe", Func: fc.key,
+		Pos: v.fset.Position(pos).String(), Assume: st.pc, Goal: goal, Expect: "unsat", Note: note, wenv: wenv})
 	// after the check, execution continues only where the condition holds
 	st.assume(v.c, goal)
 }
